@@ -1356,7 +1356,7 @@ def run_generic(ctx: vlib.Ctx, ncases: list[str], ninfo: list, ccases: list[str]
     for targ, gsh in list(GENERIC_SHAPES.items()) + [("<B>", BOUND_SHAPE)]:
         gv = FieldSpec("gv", gsh.key, "no", None, "GV", False)
         leaf = FieldSpec("y", "optint", "val", "None", None, False)
-        if gsh.bound_var:
+        if gsh is BOUND_SHAPE:
             gk = dict(generic=True, targ="", tvar="B")
             ga = FieldSpec("ga", "int_none", "val", "None", None, False)
         else:
